@@ -20,12 +20,18 @@ type Scenario struct {
 	FailAt int
 	Flag   bool
 	Expect []string // C06: the portions as the generator wrote them (Coq terms: Some (num, den) / None), clause by clause
+	// the generator's own tree (Coq term, printer's ranges): what the text means. The model and the
+	// property predicates work on THIS tree, the implementation on the text: a conversion of the
+	// parser that changes the meaning of a script shows up under the property it breaks, not only
+	// under C15. Empty when the text does not come from the generator (corpus, hostile texts).
+	Expected string
 }
 
 func scenarioFromGen(g *Gen, prog *GProgram, layout int, r *Rand) Scenario {
 	p := &Printer{}
 	p.program(prog)
-	text, _ := Render(p.Toks, layout, r)
+	text, pos := Render(p.Toks, layout, r)
+	expected := gd{pos}.program(prog)
 	bal := numscript.Balances{}
 	for a, m := range g.bal {
 		bal[a] = numscript.AccountBalance{}
@@ -47,7 +53,7 @@ func scenarioFromGen(g *Gen, prog *GProgram, layout int, r *Rand) Scenario {
 	for k, v := range g.rawVars {
 		vars[k] = v
 	}
-	return Scenario{Text: text, Vars: vars, Bal: bal, Meta: meta, Kind: skExact, FailAt: -1, Flag: g.flag}
+	return Scenario{Text: text, Vars: vars, Bal: bal, Meta: meta, Kind: skExact, FailAt: -1, Flag: g.flag, Expected: expected}
 }
 
 func (s Scenario) info(kind string) *CaseInfo {
@@ -66,7 +72,20 @@ func (s Scenario) info(kind string) *CaseInfo {
 			ci.Meta[a][k] = v
 		}
 	}
+	if s.Expected != "" {
+		ci.Extra = map[string]any{"expected_tree": s.Expected}
+	}
 	return ci
+}
+
+// extra adds entries to the case's extra information (keeping what info() put there)
+func (ci *CaseInfo) extra(m map[string]any) {
+	if ci.Extra == nil {
+		ci.Extra = map[string]any{}
+	}
+	for k, v := range m {
+		ci.Extra[k] = v
+	}
 }
 
 func (s Scenario) json() string {
@@ -97,6 +116,9 @@ func scenarioFromInfo(ci *CaseInfo) Scenario {
 			s.Meta[a][k] = v
 		}
 	}
+	if t, ok := ci.Extra["expected_tree"].(string); ok {
+		s.Expected = t
+	}
 	if ps, ok := ci.Extra["portions"].([]any); ok {
 		for _, x := range ps {
 			if t, ok := x.(string); ok {
@@ -125,9 +147,19 @@ func (s Scenario) coq(o Outcome, log []storeCall) (string, bool) {
 	if s.FailAt >= 0 {
 		fail = fmt.Sprintf("(Some %d%%nat)", s.FailAt)
 	}
-	term := fmt.Sprintf("(mk_icase %s %s %s %s %s %s %s %s)", dumpProgram(pr.Value), coqVars(s.Vars), coqBalances(s.Bal),
+	tree := s.treeOf(pr)
+	term := fmt.Sprintf("(mk_icase %s %s %s %s %s %s %s %s)", tree, coqVars(s.Vars), coqBalances(s.Bal),
 		coqMeta(s.Meta), storeKindCoq[s.Kind], fail, coqBool(s.Flag), coqObserved(o, log))
 	return term, len(pr.Errors) == 0
+}
+
+// treeOf: the tree the model is given for this scenario - the generator's when there is one
+func (s Scenario) treeOf(pr parser.ParseResult) string {
+	// ... and the text is a script (no parse error): an edited program may print as something that is not
+	if s.Expected != "" && len(pr.Errors) == 0 {
+		return s.Expected
+	}
+	return dumpProgram(pr.Value)
 }
 
 func shortObserved(o Outcome) (out string) {
@@ -167,7 +199,7 @@ func (c *Ctx) addScenario(s Scenario, kind string) *CaseInfo {
 	}
 	ci := s.info(kind)
 	if len(s.Expect) > 0 {
-		ci.Extra = map[string]any{"portions": s.Expect}
+		ci.extra(map[string]any{"portions": s.Expect})
 	}
 	ci.Coq = term
 	ci.Class = o.Class
